@@ -108,6 +108,67 @@ def oracle(ctx, domain, recs, out):
         ctx.violation("returned record is not one of the answers with its trailing dot removed", {"domain": domain, "records": recs}, out, "a record of the answer")
 
 
+
+class FaultDns:
+    """a resolver that answers per query name: a record list, or an exception class to raise (resolution faults)"""
+    def __init__(self, table, log):
+        import dns.resolver as real
+
+        def answer(flavour, name, rdtype, kw):
+            log.append((flavour, name, rdtype, kw))
+            a = table.get(name, real.NXDOMAIN)
+            if isinstance(a, type) and issubclass(a, BaseException):
+                raise a()
+            return list(a)
+
+        class _R:
+            NXDOMAIN, NoAnswer, NoNameservers, LifetimeTimeout, YXDOMAIN = real.NXDOMAIN, real.NoAnswer, real.NoNameservers, real.LifetimeTimeout, real.YXDOMAIN
+
+            @staticmethod
+            def resolve(name, rdtype, **kw):
+                return answer("sync", name, rdtype, kw)
+
+        class _A:
+            @staticmethod
+            async def resolve(name, rdtype, **kw):
+                return answer("async", name, rdtype, kw)
+        import dns.exception
+        self.resolver, self.asyncresolver, self.exception = _R, _A, dns.exception
+
+
+def faults(ctx):
+    """resolution faults: when the query for the requested domain's SRV name fails (NXDOMAIN, NoAnswer, no servers, timeout), no other
+    name may be asked instead and no record published under another name may be returned as that domain's DC"""
+    import dns.resolver as real
+    import dpapi_ng._dns as d
+    prefix = "_ldap._tcp.dc._msdcs"
+    other = [Rec("dc01.local.test.", 389, 100, 0)]
+    for domain in ("other.test", "corp.domain.test", None, ""):
+        want_q = prefix + (("." + domain) if domain else "")
+        for exc in (real.NXDOMAIN, real.NoAnswer, real.NoNameservers, real.LifetimeTimeout):
+            # every other plausible name answers: the bare prefix (search list), the parent domain, the forest root
+            table = {prefix: other, prefix + ".test": other, prefix + ".domain.test": other, prefix + ".local.test": other}
+            table[want_q] = exc
+            for use_async in (False, True):
+                log = []
+                old = d.dns
+                d.dns = FaultDns(table, log)
+                try:
+                    try:
+                        r = asyncio.run(d.async_lookup_dc(domain)) if use_async else d.lookup_dc(domain)
+                        obs = f"returned {r.target}:{r.port}"
+                    except Exception as e:  # noqa
+                        obs = "err " + canon_exc(e)
+                finally:
+                    d.dns = old
+                asked = [n for (_, n, _, _) in log]
+                ctx.count("fault:" + exc.__name__)
+                inp = {"domain": domain, "fault": exc.__name__, "async": use_async, "scenario": "resolution_fault"}
+                if any(n != want_q for n in asked):
+                    ctx.violation("after a failed lookup a different SRV name was asked", inp, str(asked), str([want_q]))
+                elif obs.startswith("returned"):
+                    ctx.violation("a record that was not published under the requested SRV name was returned", inp, obs, "error")
+
 class _Stop(Exception):
     pass
 
@@ -177,6 +238,7 @@ def call_sites(ctx):
 def run(ctx):
     prelude.validate(ctx)
     call_sites(ctx)
+    faults(ctx)
     rng = ctx.rng
     N = 5 if ctx.thorough else 3
     vals = [(p, w) for p in (0, 1, 2) for w in (0, 1, 2)]
@@ -234,6 +296,11 @@ def search(ctx, broken, disagreements):
 def replay(ctx, payload):
     v = payload["violation"]["input"]
     n0 = len(ctx.violations)
+    if v.get("scenario") == "resolution_fault":
+        faults(ctx)
+        for x in ctx.violations[n0:]:
+            print(" ", x["what"], x["input"], x["observed"])
+        return len(ctx.violations) == n0
     if "api" in v:
         call_sites(ctx)
         for x in ctx.violations[n0:]:
